@@ -198,37 +198,38 @@ CallIsSearching == \* a pure query (TryAcquire + Release)
 \* ------------------------------------------------------------------------- search goroutine
 SUnch == <<cpc, ncalls, nstarts, clock>>
 
-RunTry(g) ==   \* r.try.ok / r.try.fail
+RunTry(g) ==   \* r.try.ok / r.try.fail (the search counter - the timers' token - is advanced with the acquisition)
     /\ spc[g] = "try"
     /\ IF runHolder = 0 /\ runWaiter = 0
        THEN /\ runHolder' = g /\ UNCHANGED <<runWaiter, initSem>>
             /\ spc' = [spc EXCEPT ![g] = "reset"]
             /\ accepted' = accepted \cup {g}
+            /\ gen' = g
        ELSE IF FixTail /\ runHolder \in SIds /\ hasResult = runHolder /\ runWaiter = 0
        THEN \* the running search has its result already: wait for its last steps
-            /\ runWaiter' = g /\ UNCHANGED <<runHolder, initSem, accepted>>
+            /\ runWaiter' = g /\ UNCHANGED <<runHolder, initSem, accepted, gen>>
             /\ spc' = [spc EXCEPT ![g] = "queued"]
        ELSE \* rejected: the original code returns with the init semaphore still held
             /\ spc' = [spc EXCEPT ![g] = "rejected"]
             /\ initSem' = IF FixReject THEN 0 ELSE initSem
-            /\ UNCHANGED <<runHolder, runWaiter, accepted>>
-    /\ UNCHANGED <<SUnch, stopFlag, timeLimit, limits, smode, tpc, towner, tstart, gen, results, lastSetter, stopSeen,
+            /\ UNCHANGED <<runHolder, runWaiter, accepted, gen>>
+    /\ UNCHANGED <<SUnch, stopFlag, timeLimit, limits, smode, tpc, towner, tstart, results, lastSetter, stopSeen,
                    ctrlStops, hits, hasResult>>
 
 RunGranted(g) ==   \* FixTail: the finishing search handed the semaphore over
     /\ spc[g] = "queued" /\ runHolder = g
     /\ spc' = [spc EXCEPT ![g] = "reset"]
     /\ accepted' = accepted \cup {g}
-    /\ UNCHANGED <<SUnch, initSem, runHolder, runWaiter, stopFlag, timeLimit, limits, smode, tpc, towner, tstart, gen,
+    /\ gen' = g
+    /\ UNCHANGED <<SUnch, initSem, runHolder, runWaiter, stopFlag, timeLimit, limits, smode, tpc, towner, tstart,
                    results, lastSetter, stopSeen, ctrlStops, hits, hasResult>>
 
 RunReset(g) ==   \* r.reset: stopFlag = false (and the limits are published here by the repaired code)
     /\ spc[g] = "reset"
     /\ stopFlag' = FALSE
     /\ limits' = IF FixLimits THEN smode[g] ELSE limits
-    /\ gen' = g
     /\ spc' = [spc EXCEPT ![g] = "tl0"]
-    /\ UNCHANGED <<SUnch, initSem, runHolder, runWaiter, timeLimit, smode, tpc, towner, tstart, results, lastSetter,
+    /\ UNCHANGED <<SUnch, initSem, runHolder, runWaiter, timeLimit, smode, tpc, towner, tstart, gen, results, lastSetter,
                    stopSeen, accepted, ctrlStops, hits, hasResult>>
 
 RunTl0(g) ==     \* r.tl0
